@@ -64,6 +64,11 @@ namespace llbuild {
     struct ProcessInfo {
       /// Whether the process can be safely interrupted.
       bool canSafelyInterrupt;
+
+      /// Whether the process was put into a process group of its own (true
+      /// unless it is connected to the console, in which case it stays in our
+      /// group and has to be signalled individually).
+      bool hasOwnProcessGroup = true;
     };
 
 
